@@ -12,13 +12,32 @@ Inner contracts (private helpers, skipped gracefully if they are renamed): _buil
 _cover removes exactly the column and the conflicting rows; _cover(c1..ck) then _uncover(ck..c1) restores every
 left/right/up/down/size field; search() leaves the structure as built whenever the top-level search returns False.
 Oracle: oracles/exact_cover.py (subset enumeration).
+
+Beyond the small scope (same top-level contract, same judge(), certifying oracles instead of subset enumeration):
+  * size ladder: block-structured instances from 10 to 2600 rows/columns (square, tall, wide; rows and columns
+    shuffled) whose covers are the unions of one cover per independent part (union-find split + enumeration per part;
+    the product of the planted per-block counts is cross-checked); every returned selection is also checked directly
+    against the definition;
+  * long searches: n-queens (diagonals secondary), perfect matchings of K_2m, set partitions, domino tilings, with
+    10^3 .. 10^6 search iterations and up to 10^5 covers, judged against first-uncovered-column backtracking on bit
+    masks and against the closed-form counts;
+  * history mode: every ladder / long-search / small random instance is the start of a sequence of calls in ONE
+    process on the SAME matrix / columns / secondary objects with in-place edits between the calls (names of two
+    columns exchanged, names permuted, secondary entries removed / added, cells flipped, rows appended / removed);
+    every call is judged against the oracle for the input as it is at that call, is repeated, and the last call of
+    the sequence is compared with the answer of a fresh interpreter process.
+The interpreter's recursion limit is never touched (the code under test may look at it).
 """
 from __future__ import annotations
 
 import ast
 import itertools
+import json
+import os
 import random
 import signal
+import subprocess
+import sys
 import time
 
 from vf.core import Ctx, use_repo
@@ -27,7 +46,8 @@ from oracles import exact_cover as O
 
 LEVEL = "exploration"
 P = "C07/solve_exact_cover/"
-CALL_TIMEOUT = 5.0  # CPU seconds per solver call; the largest instance here has 8 rows (a clean call takes < 1 ms)
+CALL_TIMEOUT = 5.0  # CPU seconds per solver call in the small scopes (largest instance: 8 rows, a clean call takes < 1 ms)
+TIMEOUT = [CALL_TIMEOUT]  # the limit in force; history tasks on big instances raise it for their own calls
 HANGS = [0]  # hangs seen by this worker process; after a few, time-outs shrink and then whole tasks are skipped
 FIELDS = ("left", "right", "up", "down")
 
@@ -44,7 +64,7 @@ def guarded(fn, *a, **k):
     """Run fn under a CPU-time alarm (an endless loop burns CPU; a wall-clock alarm would fire spuriously on a loaded
     machine). Returns ('ok', value) | ('exc', repr) | ('hang', None)."""
     old = signal.signal(signal.SIGVTALRM, _alarm)
-    signal.setitimer(signal.ITIMER_VIRTUAL, CALL_TIMEOUT if HANGS[0] < 3 else 1.0)
+    signal.setitimer(signal.ITIMER_VIRTUAL, TIMEOUT[0] if HANGS[0] < 3 else min(TIMEOUT[0], 1.0 + TIMEOUT[0] / 10))
     try:
         return "ok", fn(*a, **k)
     except _Timeout:
@@ -116,14 +136,69 @@ def observe(r):
     return (repr(getattr(r, "solution", "<no .solution>")), st, getattr(r, "objective", None))
 
 
-def judge(D, matrix, form, columns, secondary, cfg, flags, covers):
+class Truth:
+    """What the oracle knows about one instance: the covers are the unions of one cover per independent part
+    (parts = [[cover, ...], ...], covers as tuples of row indices). A plain set of covers is the one-part case.
+    Nothing is multiplied out: membership is decided part by part, the number of covers is the product."""
+
+    def __init__(self, parts):
+        self.parts = [[frozenset(c) for c in p] for p in parts]
+        self.sets = [set(p) for p in self.parts]
+        self.rows = [frozenset().union(*p) if p else frozenset() for p in self.parts]
+        self.all_rows = frozenset().union(*self.rows) if self.rows else frozenset()
+        self.total = 1
+        for p in self.parts:
+            self.total *= len(p)
+        self.exists = self.total > 0
+
+    @classmethod
+    def of(cls, covers):
+        return covers if isinstance(covers, Truth) else cls([list(covers)])
+
+    def contains(self, fs):
+        if not self.exists or not fs <= self.all_rows:
+            return False
+        if len(self.parts) == 1:
+            return fs in self.sets[0]
+        return all((fs & rows) in st for rows, st in zip(self.rows, self.sets))
+
+    def example(self):
+        return sorted(frozenset().union(*[min(p, key=sorted) for p in self.parts])) if self.exists else None
+
+    def missing(self, got):
+        """A cover that is not in `got` (a set of frozensets), or None."""
+        if not self.exists:
+            return None
+        if len(self.parts) == 1:
+            rest = self.sets[0] - got
+            return sorted(min(rest, key=sorted)) if rest else None
+        if sum(1 for g in got if self.contains(g)) >= self.total:
+            return None
+        for combo in itertools.product(*self.parts):  # fewer than `total` covers were returned: found within len(got)+1 steps
+            u = frozenset().union(*combo)
+            if u not in got:
+                return sorted(u)
+        return None
+
+
+def short(x, n=300):
+    t = repr(x)
+    return t if len(t) <= n else t[:n] + f"... ({len(t)} characters)"
+
+
+def judge(D, matrix, form, columns, secondary, cfg, flags, covers, m_arg=None, sp=None, defects=None):
     """Evaluate the contract for one call configuration.
+    covers: set of frozensets (all covers) or a Truth. m_arg: the very object to hand to the solver (history mode;
+    default: a fresh copy of `matrix` in representation `form`). sp: sparse rows of `matrix` (big instances: returned
+    selections are then checked on the sparse form). defects: list collecting oracle self-contradictions.
     Returns (list of (obligation, detail), hang: bool, result or None)."""
     find_all, max_solutions, max_iter = cfg
     R, C = len(matrix), n_cols_of(matrix)
     zd = "/zero-dimension" if R == 0 or C == 0 else ""
     bad = []
-    m_arg = in_form(matrix, form)
+    T = Truth.of(covers)
+    if m_arg is None:
+        m_arg = in_form(matrix, form)
     pristine = [list(r) for r in m_arg]
     col_snap = None if columns is None else list(columns)
     sec_snap = None if secondary is None else (set(secondary) if isinstance(secondary, (set, frozenset)) else list(secondary))
@@ -137,20 +212,20 @@ def judge(D, matrix, form, columns, secondary, cfg, flags, covers):
 
     # frame: inputs untouched
     if [list(x) for x in m_arg] != pristine or len(m_arg) != R:
-        bad.append((P + "frame:matrix-unchanged", f"matrix after the call: {m_arg!r}"))
+        bad.append((P + "frame:matrix-unchanged", f"matrix after the call: {short(m_arg)}"))
     if col_snap is not None and list(columns) != col_snap:
-        bad.append((P + "frame:matrix-unchanged", f"columns after the call: {columns!r}"))
+        bad.append((P + "frame:matrix-unchanged", f"columns after the call: {short(columns)}"))
     if sec_snap is not None and (set(secondary) if isinstance(secondary, (set, frozenset)) else list(secondary)) != sec_snap:
-        bad.append((P + "frame:matrix-unchanged", f"secondary after the call: {secondary!r}"))
+        bad.append((P + "frame:matrix-unchanged", f"secondary after the call: {short(secondary)}"))
 
     # same input again -> same answer
     how2, r2 = call_solver(D, m_arg, columns, secondary, cfg)
     if how2 == "hang":
         return bad, True, r
     if how2 == "exc":
-        bad.append((P + "ensures:deterministic", f"second call raised {r2}, first returned {observe(r)}"))
+        bad.append((P + "ensures:deterministic", f"second call raised {r2}, first returned {short(observe(r))}"))
     elif observe(r) != observe(r2):
-        bad.append((P + "ensures:deterministic", f"first call {observe(r)}, second call {observe(r2)}"))
+        bad.append((P + "ensures:deterministic", f"first call {short(observe(r))}, second call {short(observe(r2))}"))
 
     status = getattr(getattr(r, "status", None), "name", None)
     sol = getattr(r, "solution", None)
@@ -170,31 +245,39 @@ def judge(D, matrix, form, columns, secondary, cfg, flags, covers):
         else:
             shape_ok = False
             sels = []
-            bad.append((P + "ensures:result-shape" + zd, f"find_all=True but solution is {sol!r} (not a list of selections)"))
+            bad.append((P + "ensures:result-shape" + zd, f"find_all=True but solution is {short(sol)} (not a list of selections)"))
     else:
         if isinstance(sol, (tuple, list)) and all(isinstance(i, int) for i in sol):
             sels = [tuple(sol)]
         else:
             shape_ok = False
             sels = []
-            bad.append((P + "ensures:result-shape" + zd, f"find_all=False but solution is {sol!r} (not a tuple of row indices)"))
+            bad.append((P + "ensures:result-shape" + zd, f"find_all=False but solution is {short(sol)} (not a tuple of row indices)"))
 
     # every returned selection is an exact cover made of rows with a primary 1
-    for s in sels:
-        why = O.why_not_cover(matrix, flags, s)
+    # (directly against the definition; past the first 2000 selections of one answer the definition is consulted only
+    # for selections that the oracle's enumeration does not list - and must then reject them, or the oracle is broken)
+    for k, s in enumerate(sels):
+        if k >= 2000:
+            fs = frozenset(s)
+            if len(fs) == len(s) and T.contains(fs):
+                continue
+        why = O.why_not_cover(matrix, flags, s) if sp is None else O.why_not_cover_sparse(sp, flags, s)
         if why is not None:
             ob = "ensures:only-rows-with-primary" if why.startswith("row ") else "ensures:selection-is-exact-cover"
-            bad.append((P + ob + zd, f"status {status}, returned {s}: {why}"))
+            bad.append((P + ob + zd, f"status {status}, returned {short(s, 120)}: {why}"))
             break
+        if not T.contains(frozenset(s)) and defects is not None:
+            defects.append(f"oracle self-contradiction: {short(s, 200)} passes the definition but is not in the enumeration")
     if len({frozenset(s) for s in sels}) != len(sels):
-        bad.append((P + "ensures:find_all-no-duplicates" + zd, f"returned {sels}"))
+        bad.append((P + "ensures:find_all-no-duplicates" + zd, f"returned {short(sels)}"))
 
-    exists = bool(covers)
+    exists = T.exists
     if status == "INFEASIBLE" and exists:
         bad.append((P + "ensures:infeasible-iff-no-cover" + zd,
-                    f"INFEASIBLE reported but {len(covers)} cover(s) exist, e.g. rows {sorted(min(covers, key=sorted))}"))
+                    f"INFEASIBLE reported but {T.total} cover(s) exist, e.g. rows {short(T.example(), 200)}"))
     if status == "INFEASIBLE" and sels:
-        bad.append((P + "ensures:result-shape" + zd, f"INFEASIBLE together with selections {sels}"))
+        bad.append((P + "ensures:result-shape" + zd, f"INFEASIBLE together with selections {short(sels)}"))
     if status == "MAX_ITER":
         eff = 10_000_000 if max_iter is None else max_iter
         if eff >= 2 ** R:
@@ -202,20 +285,19 @@ def judge(D, matrix, form, columns, secondary, cfg, flags, covers):
                         f"MAX_ITER with max_iter={eff} >= 2^{R}: no Algorithm-X search tree on {R} rows has that many nodes"))
     else:
         if not exists and status != "INFEASIBLE":
-            bad.append((P + "ensures:infeasible-iff-no-cover" + zd, f"no cover exists but status is {status}, solution {sol!r}"))
+            bad.append((P + "ensures:infeasible-iff-no-cover" + zd, f"no cover exists but status is {status}, solution {short(sol)}"))
         if exists and shape_ok and not sels and status != "INFEASIBLE":
             bad.append((P + ("ensures:find_all-complete" if find_all else "ensures:returns-a-cover") + zd,
-                        f"status {status}, {len(covers)} cover(s) exist, solution {sol!r} holds no selection"))
+                        f"status {status}, {T.total} cover(s) exist, solution {short(sol)} holds no selection"))
     if find_all and shape_ok:
         cut_by_count = bool(max_solutions) and len(sels) >= max_solutions
         if max_solutions and len(sels) > max_solutions:
             bad.append((P + "ensures:max_solutions-cutoff" + zd, f"max_solutions={max_solutions} but {len(sels)} selections returned"))
         if status != "MAX_ITER" and not cut_by_count and sels:
-            got = {frozenset(s) for s in sels}
-            missing = covers - got
-            if missing:
+            missing = T.missing({frozenset(s) for s in sels})
+            if missing is not None:
                 bad.append((P + "ensures:find_all-complete" + zd,
-                            f"status {status}, {len(sels)} returned of {len(covers)}; missing e.g. rows {sorted(min(missing, key=sorted))}"))
+                            f"status {status}, {len(sels)} returned of {T.total}; missing e.g. rows {short(missing, 200)}"))
     return bad, False, r
 
 
@@ -459,8 +541,9 @@ def eval_pair(D, matrix, form, columns, secondary, level, acc):
         if how == "ok" and isinstance(getattr(r, "iterations", None), int):
             n_iter[fa] = r.iterations
     cfgs = configs(level, R, n_iter)
+    truth = Truth([list(covers)])
     for cfg in cfgs:
-        bad, hang, r = judge(D, matrix, form, columns, secondary, cfg, flags, covers)
+        bad, hang, r = judge(D, matrix, form, columns, secondary, cfg, flags, truth)
         acc["n_eval"] += 1
         if nontrivial:
             acc["n_nontrivial"] += 1
@@ -492,7 +575,9 @@ def link_seqs(C, code, level):
 
 def new_acc():
     return {"n_eval": 0, "n_nontrivial": 0, "viol": [], "hangs": [], "pairs": 0, "pairs_feasible": 0, "pairs_multi": 0,
-            "max_covers": 0, "cut_by_max_iter": 0, "link_evals": 0, "links_skipped": 0, "restore_evals": 0, "samples": []}
+            "max_covers": 0, "cut_by_max_iter": 0, "link_evals": 0, "links_skipped": 0, "restore_evals": 0, "samples": [],
+            "defects": [], "oracle_limit": [], "hist_calls": {}, "iters_ge": {}, "max_listed": 0, "max_dims": [0, 0],
+            "hist_steps": 0, "histories": 0, "fresh_compared": 0}
 
 
 def sec_masks(C, code, mode):
@@ -657,6 +742,517 @@ def named_case(rng, idx):
     if scheme in ("none", "empty") and form == "list":
         form = "tuple"  # default names + plain lists is what the exhaustive scopes use
     return (matrix, form, None if columns is None else repr(columns), None if secondary is None else repr(secondary))
+
+
+# ------------------------------------------------------------------ beyond the small scope: families and history mode
+DEPTH_CAP = 850  # the code recurses once per selected row: judged instances never hold more pairwise disjoint eligible
+#                  rows than this (interpreter limit 1000, left untouched; what happens beyond is recorded, not judged)
+BLOCK_SHAPES = {"square": ((3, 6), (3, 5), 0.45), "tall": ((5, 9), (2, 3), 0.5), "wide": ((2, 4), (5, 8), 0.35)}
+BASE_CFGS = [(True, None, None), (False, None, None), (True, 2, None)]
+
+
+def max_disjoint(block, sec):
+    """Largest number of pairwise disjoint eligible rows of a small block (bound on the search depth it can add)."""
+    masks = [sum(1 << j for j, v in enumerate(row) if v) for row in block]
+    prim = sum(1 << j for j in range(len(sec)) if not sec[j])
+    masks = [m for m in masks if m & prim]
+    best = 0
+    stack = [(0, 0, 0)]
+    while stack:
+        k, used, n = stack.pop()
+        best = max(best, n)
+        for i in range(k, len(masks)):
+            if not masks[i] & used:
+                stack.append((i + 1, used | masks[i], n + 1))
+    return best
+
+
+def sample_block(rng, variant, with_sec, target):
+    """A small random block with exactly `target` covers (rejection sampling against the subset enumeration)."""
+    (r0, r1), (c0, c1), dens = BLOCK_SHAPES[variant]
+    for _ in range(20000):
+        r, c = rng.randint(r0, r1), rng.randint(c0, c1)
+        sec = [bool(with_sec) and rng.random() < 0.2 for _ in range(c)]
+        if all(sec):
+            continue
+        block = [[int(rng.random() < dens) for _ in range(c)] for _ in range(r)]
+        if target and rng.random() < 0.7:  # plant a cover: a partition of the primary columns over the first rows
+            prim = [j for j in range(c) if not sec[j]]
+            rng.shuffle(prim)
+            k = rng.randint(1, min(r, 3, len(prim)))
+            for i in range(k):
+                block[i] = [0] * c
+            for t, j in enumerate(prim):
+                block[t % k][j] = 1
+            for j in range(c):
+                if sec[j] and rng.random() < 0.3:
+                    block[rng.randrange(k)][j] = 1
+            rng.shuffle(block)
+        if r > 2 and rng.random() < 0.25:
+            block[rng.randrange(r)] = list(block[rng.randrange(r)])  # duplicate row
+        if target == 0 and rng.random() < 0.7 and any(not sec[j] and not any(row[j] for row in block) for j in range(c)):
+            continue  # mostly dead blocks without an empty primary column (the search has to find out)
+        if len(O.all_covers(block, sec)) == target:
+            return block, sec
+    raise RuntimeError(f"no {variant} block with {target} covers found")
+
+
+def name_scheme(rng, scheme, n_cols, sec_cols):
+    """(columns, secondary) for the column positions in sec_cols under a naming scheme."""
+    sec_cols = list(sec_cols)
+    rng.shuffle(sec_cols)
+    if scheme == "none":
+        return None, sec_cols
+    if scheme == "shift":
+        names = [j + 1000 for j in range(n_cols)]
+    else:
+        lab = list(range(n_cols))
+        rng.shuffle(lab)
+        names = [f"n{k}" for k in lab]
+    return names, [names[j] for j in sec_cols]
+
+
+def gen_ladder(spec):
+    """Block-structured instance: independent small blocks with a planted number of covers each, junk rows / columns
+    (empty, secondary only) up to the wanted size, rows and columns shuffled. Returns a history record."""
+    size, variant, total = spec["size"], spec["variant"], spec["total"]
+    rng = random.Random(f"ladder/{spec['seed']}/{size}/{variant}/{spec['sec']}/{total}/{spec['names']}")
+    special = [0] if total == 0 else []
+    t = total
+    for p in (2, 3):
+        while t and t % p == 0:
+            special.append(p)
+            t //= p
+    blocks, nr, nc, depth = [], 0, 0, 0
+    want_r = size if variant in ("square", "tall") else 0
+    want_c = size if variant in ("square", "wide") else 0
+    while nr < want_r or nc < want_c or special:
+        target = special.pop() if special else 1
+        block, sec = sample_block(rng, variant, spec["sec"], target)
+        d = max_disjoint(block, sec)
+        if depth + d > DEPTH_CAP:
+            break
+        blocks.append((block, sec, target))
+        nr, nc, depth = nr + len(block), nc + len(block[0]), depth + d
+    expect = 1
+    for _, _, target in blocks:
+        expect *= target
+    junk_r = max(0, want_r - nr) + rng.randint(0, 1 + size // 50)
+    junk_c = max(0, want_c - nc) + rng.randint(0, 1 + size // 50)
+    R, C = nr + junk_r, nc + junk_c
+    row_perm, col_perm = list(range(R)), list(range(C))
+    rng.shuffle(row_perm)
+    rng.shuffle(col_perm)
+    rows = [[] for _ in range(R)]
+    sec_cols = []
+    r0 = c0 = 0
+    for block, sec, _ in blocks:
+        for i, row in enumerate(block):
+            rows[row_perm[r0 + i]] = [col_perm[c0 + j] for j, v in enumerate(row) if v]
+        sec_cols += [col_perm[c0 + j] for j in range(len(sec)) if sec[j]]
+        r0, c0 = r0 + len(block), c0 + len(block[0])
+    junk_cols = [col_perm[nc + j] for j in range(junk_c)]  # all secondary; touched only by junk rows and by at most
+    sec_cols += junk_cols  # one block row each (a secondary column with a single 1 constrains nothing)
+    for j in junk_cols:
+        if nr and rng.random() < 0.3:
+            rows[row_perm[rng.randrange(nr)]].append(j)
+    pool = sec_cols
+    for i in range(junk_r):  # junk rows: empty or with 1s in secondary columns only (never eligible)
+        if pool and rng.random() < 0.6:
+            rows[row_perm[nr + i]] = rng.sample(pool, min(len(pool), rng.randint(1, 3)))
+    rows = [sorted(r) for r in rows]
+    columns, secondary = name_scheme(rng, spec["names"], C, sec_cols)
+    H = {"kind": "history", "family": "ladder", "spec": spec, "n_cols": C, "rows": rows, "form": "list",
+         "columns": None if columns is None else repr(columns), "secondary": repr(secondary) if secondary or rng.random() < 0.5 else None,
+         "expect_total": expect, "depth_bound": depth, "blocks": len(blocks)}
+    H["steps"] = make_steps(rng, H, spec["steps"])
+    return H
+
+
+def long_matrix(kind, n, m=0):
+    """(dense rows, positions of the secondary columns, number of covers known from combinatorics)."""
+    if kind == "queens":
+        C = 2 * n + 2 * (2 * n - 1)
+        rows = []
+        for r in range(n):
+            for c in range(n):
+                row = [0] * C
+                row[r] = row[n + c] = row[2 * n + r + c] = row[4 * n - 1 + (r - c + n - 1)] = 1
+                rows.append(row)
+        return rows, list(range(2 * n, C)), O.QUEENS[n]
+    if kind == "matchings":  # perfect matchings of the complete graph on n vertices
+        rows = []
+        for a, b in itertools.combinations(range(n), 2):
+            row = [0] * n
+            row[a] = row[b] = 1
+            rows.append(row)
+        return rows, [], O.perfect_matchings_complete(n)
+    if kind == "partitions":  # every non-empty subset of n elements is a row: covers = set partitions
+        return [[(s >> j) & 1 for j in range(n)] for s in range(1, 1 << n)], [], O.bell(n)
+    if kind == "domino":  # n x m board
+        rows = []
+        for r in range(n):
+            for c in range(m):
+                for rr, cc in ((r, c + 1), (r + 1, c)):
+                    if rr < n and cc < m:
+                        row = [0] * (n * m)
+                        row[r * m + c] = row[rr * m + cc] = 1
+                        rows.append(row)
+        return rows, [], O.domino_tilings(n, m)
+    raise ValueError(kind)
+
+
+def gen_long(spec):
+    rows, sec_cols, expect = long_matrix(spec["shape"], spec["n"], spec.get("m", 0))
+    rng = random.Random(f"long/{spec['seed']}/{spec['shape']}/{spec['n']}/{spec.get('m', 0)}/{spec['names']}")
+    perm = list(range(len(rows)))
+    if spec["seed"]:
+        rng.shuffle(perm)  # seed 0 keeps the textbook row order
+    rows = [rows[i] for i in perm]
+    C = len(rows[0])
+    columns, secondary = name_scheme(rng, spec["names"], C, sec_cols)
+    H = {"kind": "history", "family": "long", "spec": spec, "n_cols": C, "rows": O.sparse_rows(rows), "form": "list",
+         "columns": None if columns is None else repr(columns), "secondary": repr(secondary) if secondary else None,
+         "expect_total": expect}
+    H["steps"] = make_steps(rng, H, spec["steps"])
+    return H
+
+
+def gen_small(spec):
+    rng = random.Random(f"small/{spec['seed']}")
+    R, C = rng.choice([(2, 3), (3, 3), (3, 4), (4, 3), (4, 4), (5, 3), (5, 4), (4, 5), (6, 4), (5, 5), (6, 5)])
+    matrix = dense_matrix(rng, R, C) if rng.random() < 0.5 else planted_matrix(rng, R, C)
+    sec_cols = [j for j in range(C) if rng.random() < 0.3]
+    columns, secondary = name_scheme(rng, ("none", "str", "shift")[spec["seed"] % 3], C, sec_cols)
+    u = rng.random()
+    if secondary is not None and u < 0.2:
+        secondary = tuple(secondary)
+    if columns is not None and u > 0.8:
+        columns = tuple(columns)
+    H = {"kind": "history", "family": "small", "spec": spec, "n_cols": C, "rows": O.sparse_rows(matrix),
+         "form": ("list", "list", "rowtuple", "tuple", "bool")[spec["seed"] // 3 % 5],
+         "columns": None if columns is None else repr(columns),
+         "secondary": repr(secondary) if secondary or rng.random() < 0.5 else None}
+    H["steps"] = make_steps(rng, H, spec["steps"])
+    return H
+
+
+GEN = {"ladder": gen_ladder, "long": gen_long, "small": gen_small}
+
+
+def make_steps(rng, H, k):
+    """k seeded edits for a history; positions only (what an edit does to names / flags is decided when it is applied
+    to the state at that moment). The first edit exchanges the names of a secondary and a primary column whenever the
+    instance has both, so every history with secondary columns holds a relabelling that changes the problem."""
+    R, C, rows = len(H["rows"]), H["n_cols"], H["rows"]
+    flags = O.secondary_flags(C, lit(H["columns"]), lit(H["secondary"]))
+    sec = [j for j in range(C) if flags[j]]
+    prim = [j for j in range(C) if not flags[j]]
+    steps = []
+    for n in range(k):
+        u = rng.random()
+        if n == 0 and sec and prim:
+            busy = [j for j in sec if any(j in r for r in rows[:400])] or sec
+            steps.append(["swap-names", rng.choice(prim), rng.choice(busy)])
+        elif u < 0.16:
+            steps.append(["swap-names", rng.randrange(C), rng.randrange(C)])
+        elif u < 0.30:
+            steps.append(["permute-names", rng.randrange(1 << 30)])
+        elif u < 0.42:
+            steps.append(["sec-remove", rng.randrange(1 << 30)])
+        elif u < 0.54:
+            steps.append(["sec-add", rng.randrange(C)])
+        elif u < 0.70:
+            i = rng.randrange(R)
+            near = rows[i] + rows[rng.randrange(R)]
+            steps.append(["flip", i, rng.choice(near) if near and rng.random() < 0.8 else rng.randrange(C)])
+        elif u < 0.80:
+            base = list(rows[rng.randrange(R)])
+            if base and rng.random() < 0.5:
+                base.remove(rng.choice(base))
+            steps.append(["append-row", sorted(base)])
+        elif u < 0.86:
+            steps.append(["pop-row"])
+        elif u < 0.93:
+            steps.append(["restore-names"])
+        else:
+            steps.append(["repeat"])
+    return steps
+
+
+def start_state(H):
+    C = H["n_cols"]
+    dense = []
+    for cols in H["rows"]:
+        row = [0] * C
+        for j in cols:
+            row[j] = 1
+        dense.append(row)
+    return {"matrix": in_form(dense, H["form"]), "columns": lit(H["columns"]), "secondary": lit(H["secondary"]),
+            "form": H["form"], "n_cols": C, "names0": lit(H["columns"])}
+
+
+def _put(obj, fn):
+    """Edit a list in place; rebuild a tuple (a new object is all an immutable input allows)."""
+    if isinstance(obj, list):
+        fn(obj)
+        return obj
+    tmp = list(obj)
+    fn(tmp)
+    return tuple(tmp)
+
+
+def apply_step(st, step):
+    """One edit on the SAME objects wherever they are mutable. Returns a sentence for the log."""
+    op = step[0]
+    C = st["n_cols"]
+    m = st["matrix"]
+    if op in ("start", "repeat"):
+        return op
+    if op == "swap-names":
+        a, b = step[1], step[2]
+        if st["columns"] is None:
+            st["columns"] = list(range(C))  # default names written out, then two of them exchanged
+
+        def sw(x):
+            x[a], x[b] = x[b], x[a]
+        st["columns"] = _put(st["columns"], sw)
+        return f"names of columns {a} and {b} exchanged"
+    if op == "permute-names":
+        if st["columns"] is None:
+            return "no names to permute"
+        flags = O.secondary_flags(C, st["columns"], st["secondary"])
+        r = random.Random(step[1])
+        names = list(st["columns"])
+        for want in (True, False):
+            pos = [j for j in range(C) if flags[j] == want]
+            new = [names[j] for j in pos]
+            r.shuffle(new)
+            for j, nm in zip(pos, new):
+                names[j] = nm
+
+        def pm(x):
+            x[:] = names
+        st["columns"] = _put(st["columns"], pm)
+        return "names permuted among the secondary and among the primary columns (same problem)"
+    if op == "restore-names":
+        if st["names0"] is None:
+            st["columns"] = None
+        elif st["columns"] is not None:
+            st["columns"] = _put(st["columns"], lambda x: x.__setitem__(slice(None), list(st["names0"])))
+        return "original names restored"
+    if op == "sec-remove":
+        if not st["secondary"]:
+            return "secondary empty"
+        k = step[1] % len(st["secondary"])
+        st["secondary"] = _put(st["secondary"], lambda x: x.pop(k))
+        return f"entry {k} removed from secondary"
+    if op == "sec-add":
+        nm = (st["columns"] if st["columns"] is not None else range(C))[step[1]]
+        if st["secondary"] is None:
+            st["secondary"] = [nm]
+        else:
+            st["secondary"] = _put(st["secondary"], lambda x: x.append(nm))
+        return f"name {nm!r} of column {step[1]} added to secondary"
+    if op == "flip":
+        i, j = step[1] % len(m), step[2]
+        row = m[i]
+        v = (not row[j]) if st["form"] == "bool" else 1 - row[j]
+        if isinstance(row, list):
+            row[j] = v
+        else:
+            new = tuple(v if k == j else x for k, x in enumerate(row))
+            st["matrix"] = _put(m, lambda x: x.__setitem__(i, new))
+        return f"cell ({i},{j}) flipped to {int(v)}"
+    if op == "append-row":
+        row = [1 if j in step[1] else 0 for j in range(C)]
+        if st["form"] == "bool":
+            row = [bool(v) for v in row]
+        if st["form"] in ("tuple", "rowtuple"):
+            row = tuple(row)
+        st["matrix"] = _put(m, lambda x: x.append(row))
+        return f"row {step[1]} appended"
+    if op == "pop-row":
+        if len(m) <= 1:
+            return "single row kept"
+        st["matrix"] = _put(m, lambda x: x.pop())
+        return "last row removed"
+    raise ValueError(step)
+
+
+def digest_result(how, r):
+    if how != "ok":
+        return [how, str(r)]
+    rep, st, obj = observe(r)
+    import hashlib
+    return ["ok", st, obj, hashlib.sha1(rep.encode()).hexdigest(), rep if len(rep) <= 160 else rep[:160] + "..."]
+
+
+def hist_case(H, step, cfg):
+    c = {k: H[k] for k in ("kind", "family", "spec", "n_cols", "rows", "form", "columns", "secondary", "steps")}
+    c.update(fail_step=step, find_all=cfg[0], max_solutions=cfg[1], max_iter=cfg[2])
+    return c
+
+
+def run_history(D, H, acc, upto=None, only_cfg=None, log=None):
+    """Play one history in this process. Every step: edit the objects, ask the oracle about the input as it is now,
+    judge every configuration (each judged call is made twice). Returns the (final state, digests) for the fresh-
+    process comparison, or None if the history was cut short."""
+    big = H["family"] != "small"
+    st = start_state(H)
+    steps = [["start"]] + list(H["steps"])
+    if upto is not None:
+        steps = steps[: upto + 1]
+    cfgs = [tuple(c) for c in H.get("cfgs") or BASE_CFGS]
+    last = None
+    for k, step in enumerate(steps):
+        what = apply_step(st, step)
+        m = st["matrix"]
+        plain = m if st["form"] == "list" else [[int(v) for v in r] for r in m]
+        R, C = len(plain), st["n_cols"]
+        flags = O.secondary_flags(C, st["columns"], st["secondary"])
+        sp = O.sparse_rows(plain) if big else None
+        try:
+            truth = Truth(O.covers_by_parts(sp, flags)) if big else Truth([list(O.all_covers(plain, flags))])
+        except O.OracleLimit as e:
+            acc["oracle_limit"].append(f"{H['family']} {H['spec']} step {k}: {e}")
+            return None
+        if k == 0 and H.get("expect_total") is not None and truth.total != H["expect_total"]:
+            acc["defects"].append(f"{H['family']} {H['spec']}: oracle counts {truth.total} covers, construction says {H['expect_total']}")
+        nontrivial = any(not f for f in flags) and any(any(not flags[j] for j in cols) for cols in (sp if big else O.sparse_rows(plain)))
+        todo = list(cfgs)
+        if k == 0 and only_cfg is None:  # aim max_iter at the code's own iteration count (hint only, never an oracle)
+            for fa in (True, False):
+                how, r = call_solver(D, m, st["columns"], st["secondary"], (fa, None, None))
+                n = getattr(r, "iterations", None) if how == "ok" else None
+                if isinstance(n, int) and n >= 2:
+                    todo += [(fa, None, n - 1), (fa, None, n)]
+        if only_cfg is not None and k == len(steps) - 1 and tuple(only_cfg) not in todo:
+            todo.append(tuple(only_cfg))
+        if log:
+            log(f"step {k}: {what}; {R} rows x {C} columns, {sum(flags)} secondary, oracle: {truth.total} cover(s)")
+        last = []
+        for cfg in todo:
+            bad, hang, r = judge(D, plain, st["form"], st["columns"], st["secondary"], cfg, flags, truth, m_arg=m, sp=sp,
+                                 defects=acc["defects"])
+            acc["n_eval"] += 1
+            acc["n_nontrivial"] += bool(nontrivial)
+            acc["hist_calls"][H["family"]] = acc["hist_calls"].get(H["family"], 0) + 1
+            if hang:
+                acc["hangs"].append({"family": H["family"], "spec": H["spec"], "step": k, "cfg": list(cfg)})
+            for ob, detail in bad:
+                acc["viol"].append((ob, hist_case(H, k, cfg), f"[history step {k}: {what}] {detail}"))
+            if log:
+                log(f"   find_all={cfg[0]} max_solutions={cfg[1]} max_iter={cfg[2]} -> "
+                    f"{digest_result('ok', r)[1:3] + [digest_result('ok', r)[4]] if r is not None else ('hang' if hang else 'exception')}")
+                for ob, detail in bad:
+                    log(f"   VIOLATED {ob} :: {detail}")
+            if r is not None:
+                it = getattr(r, "iterations", 0) or 0
+                for lim in (1000, 10_000, 100_000, 1_000_000):
+                    if isinstance(it, int) and it >= lim:
+                        acc["iters_ge"][str(lim)] = acc["iters_ge"].get(str(lim), 0) + 1
+                nsol = len(r.solution) if cfg[0] and isinstance(getattr(r, "solution", None), list) else 0
+                acc["max_listed"] = max(acc["max_listed"], nsol)
+                if getattr(getattr(r, "status", None), "name", "") == "MAX_ITER":
+                    acc["cut_by_max_iter"] += 1
+                last.append((cfg, digest_result("ok", r)))
+        acc["max_dims"] = max(acc["max_dims"], [R, C])
+        acc["hist_steps"] += 1
+    acc["histories"] += 1
+    final = {"n_cols": st["n_cols"], "rows": O.sparse_rows(st["matrix"]), "form": st["form"],
+             "columns": None if st["columns"] is None else repr(st["columns"]),
+             "secondary": None if st["secondary"] is None else repr(st["secondary"]), "timeout": TIMEOUT[0]}
+    return final, last
+
+
+def fresh_answers(jobs):
+    """jobs: [(final state, [cfg, ...])]. One new interpreter; inside it every call runs in a forked child of the
+    still untouched parent, so each answer comes from a process that has made no other solver call."""
+    if not jobs:
+        return []
+    from vf.core import VERIF
+    payload = json.dumps([{"state": s, "cfgs": [list(c) for c in cfgs]} for s, cfgs in jobs])
+    code = f"import sys; sys.path.insert(0, {VERIF!r}); import checks.C07 as m; m.fresh_main()"
+    p = subprocess.run([sys.executable, "-c", code], input=payload, capture_output=True, text=True, cwd=VERIF,
+                       timeout=3600)
+    if p.returncode != 0:
+        raise RuntimeError(f"fresh interpreter failed ({p.returncode}): {p.stderr[-400:]}")
+    return json.loads(p.stdout)
+
+
+def fresh_main():
+    use_repo()
+    import solvor.dlx as D
+    out = []
+    for job in json.load(sys.stdin):
+        s = job["state"]
+        res = []
+        for cfg in job["cfgs"]:
+            rd, wr = os.pipe()
+            pid = os.fork()
+            if pid == 0:
+                try:
+                    os.close(rd)
+                    TIMEOUT[0] = s.get("timeout", CALL_TIMEOUT)
+                    st = start_state({"rows": s["rows"], "n_cols": s["n_cols"], "form": s["form"], "columns": s["columns"],
+                                      "secondary": s["secondary"]})
+                    how, r = call_solver(D, st["matrix"], st["columns"], st["secondary"], tuple(cfg))
+                    with os.fdopen(wr, "w") as f:
+                        json.dump(digest_result(how, r), f)
+                finally:
+                    os._exit(0)
+            os.close(wr)
+            with os.fdopen(rd) as f:
+                txt = f.read()
+            os.waitpid(pid, 0)
+            res.append(json.loads(txt) if txt else ["died", ""])
+        out.append(res)
+    json.dump(out, sys.stdout)
+
+
+def work_histories(task):
+    """Pool worker for history tasks: task = dict(kind='hist', specs=[(family, spec), ...], timeout)."""
+    use_repo()
+    import solvor.dlx as D
+    acc = new_acc()
+    t0 = time.process_time()
+    TIMEOUT[0] = task.get("timeout", CALL_TIMEOUT)
+    pending = []
+    try:
+        for family, spec in task["specs"]:
+            if HANGS[0] >= 8:
+                acc["skipped_task"] = 1
+                break
+            H = GEN[family](spec)
+            H["cfgs"] = task.get("cfgs") or BASE_CFGS
+            got = run_history(D, H, acc)
+            if got is not None and got[1]:
+                pending.append((H, got[0], got[1]))
+            if not acc["samples"]:
+                acc["samples"].append({"kind": "history", "family": family, "spec": spec, "rows x columns": [len(H["rows"]), H["n_cols"]],
+                                       "steps": H["steps"]})
+        try:
+            answers = fresh_answers([(final, [c for c, _ in last]) for _, final, last in pending])
+        except Exception as e:  # noqa: BLE001
+            acc["defects"].append(f"fresh-process comparison not run: {e}")
+            answers = []
+        for (H, final, last), res in zip(pending, answers):
+            for (cfg, here), there in zip(last, res):
+                acc["fresh_compared"] += 1
+                if there[0] == "hang":
+                    continue
+                if here[:4] != there[:4]:
+                    acc["viol"].append((P + "ensures:same-answer-in-a-fresh-process", hist_case(H, len(H["steps"]), cfg),
+                                        f"after the history: {here[1:3] + here[4:]}; the same call as the first call of a new process: {there[1:3] + there[4:]}"))
+    finally:
+        TIMEOUT[0] = CALL_TIMEOUT
+    acc["cpu"] = time.process_time() - t0
+    return acc
+
+
+def work_any(task):
+    return work_histories(task) if task["kind"] == "hist" else work(task)
 
 
 def chunks(seq, n):
